@@ -21,7 +21,8 @@ theorem ringFaces_addressed (N c : Nat) (h : 1 ≤ N * c) :
     conv => lhs; rw [this, List.range'_concat]
     simp; omega
   rw [e, List.map_append]
-  simp only [ringFaces, Bool.false_eq_true, if_false, List.map_cons, List.map_nil]
+  rw [ringFaces_norm]
+  simp only [ringFacesCanon, Bool.false_eq_true, if_false, List.map_cons, List.map_nil]
   congr 1
   · rw [List.map_eq_flatMap]
     apply flatMap_congr_on
@@ -142,7 +143,8 @@ theorem fanFaces_eq (n : Nat) : (List.range n).flatMap (fun i => [fanTri i]) = (
   rw [List.map_eq_flatMap]
 
 theorem ringFaces_open_eq (N c : Nat) (h : 1 ≤ N * c) : ringFaces N c true = (List.range (N * c)).map fanTri := by
-  simp only [ringFaces, if_true]
+  rw [ringFaces_norm]
+  simp only [ringFacesCanon, if_true]
   generalize N * c = n at h ⊢
   obtain ⟨m, rfl⟩ : ∃ m, n = m + 1 := ⟨n - 1, by omega⟩
   rw [List.range_succ, List.map_append, Nat.add_sub_cancel, List.range'_eq_map_range, List.flatMap_map,
